@@ -11,9 +11,12 @@ FAM = (413, 415, 416)
 
 MC = {
     # emission configurations (every case is replayed)
-    "quick": ["MC_Containers_q4.cfg", "MC_Containers_q3.cfg", "MC_Containers_q3p.cfg", "MC_Containers_q3cp.cfg"],
+    # q3w: words among the kinds (n <= 3); q6chain: the chain 1 -> ... -> 6 plus at most one more reference
+    # (chains beyond the exhaustive bound, diamonds, one back edge) in 6 file orders
+    "quick": ["MC_Containers_q4.cfg", "MC_Containers_q3.cfg", "MC_Containers_q3p.cfg", "MC_Containers_q3cp.cfg",
+              "MC_Containers_q3w.cfg", "MC_Containers_q3wc.cfg", "MC_Containers_q6chain.cfg"],
     "thorough": ["MC_Containers_t4.cfg", "MC_Containers_t3.cfg", "MC_Containers_t3cp.cfg", "MC_Containers_q4.cfg",
-                 "MC_Containers_q3.cfg"],
+                 "MC_Containers_q3.cfg", "MC_Containers_t3w.cfg", "MC_Containers_q6chain.cfg", "MC_Containers_t5wchain.cfg"],
 }
 # configurations on which the algorithm model is known to violate an invariant: each one documents a
 # finding at design level and doubles as a vacuity guard (the invariant CAN fail)
@@ -73,13 +76,17 @@ def explained_by(case, obs, problem):
     fam = sorted((c, nd) for c, nd in diags if c in FAM)
     if "merrs" in case and fam != sorted((c, nd) for nd, c in case["merrs"]):
         return None
+    # |:&[2]S| in the value of a constant is registered as containment of S (open finding; the model follows the code,
+    # and the cycle diagnostics are exactly the model's -- checked above)
+    if "constptr-array" in tags and fam and "merrs" in case and problem in ("rejected-acyclic", "wrong-code-413", "wrong-code-416"):
+        return "constptr-array"
     if "constptr" in tags and fam and problem in ("rejected-acyclic", "wrong-code-413", "wrong-code-416"):
         return "constptr"
     if case["acc"]:
         # E433 on the structure that is typed before the constant of its pointer member, and on later
         # users of that constant (the typer poisons the constant's symbol): nothing but E433 on structures
         if "ptrlen-before-const" in tags and not fam and problem == "rejected-acyclic" and diags and \
-                all(c == 433 and case["kind"][nd - 1] == "s" for c, nd in diags) and \
+                all(c == 433 and case["kind"][nd - 1] in "sw" for c, nd in diags) and \
                 set(case.get("m433", [])) <= set(nd for c, nd in diags):
             return "ptrlen-before-const"
         return None
